@@ -62,6 +62,9 @@ mod types;
 #[cfg(test)]
 mod tests;
 
+#[cfg(feature = "verif")]
+pub mod verif;
+
 /// Logging target for the file.
 const LOG_TARGET: &str = "litep2p::notification";
 
